@@ -55,9 +55,19 @@ def sid(t):
 
 # plan -> (exceptions argument for catch (None = default), type raised at a
 #          failing position as a function of the position index in the subset)
+# two different exception classes with the same __name__ (the ParseError of
+# two parser modules; csv.Error and binascii.Error)
+SameName1 = type('ParseError', (Exception,), {'__module__': 'parser_one'})
+SameName2 = type('ParseError', (Exception,), {'__module__': 'parser_two'})
+
+
 def plans(ld):
     FE = ld.core.FilterException
     return {
+        'same-name-both-listed': ((SameName1, SameName2),
+                                  lambda j: (SameName1, SameName2)[j % 2]),
+        'same-name-both-listed-as-list': ([SameName2, SameName1, E1],
+                                          lambda j: (SameName1, SameName2, E1)[j % 3]),
         'default': (None, lambda j: FE),
         'single': (E1, lambda j: E1),
         'tuple': ((E1, E2), lambda j: (E1, E2)[j % 2]),
@@ -70,6 +80,7 @@ def plans(ld):
         # exception is "of another type" and must propagate
         'empty-tuple-selects-nothing': ((), lambda j: (FE, E1)[j % 2]),
         'other-type-listed': (E2, lambda j: (FE, E1)[j % 2]),
+        'same-name-other-listed': (SameName1, lambda j: SameName2),
         'subclass-listed-superclass-raised': (Sub1, lambda j: E1),
         # exception types that stages use for their own control flow (end of
         # input, missing key, missing capability): raised by USER code they
@@ -86,7 +97,7 @@ def plans(ld):
     }
 
 
-UNSELECTED_PLANS = ('empty-tuple-selects-nothing', 'other-type-listed',
+UNSELECTED_PLANS = ('same-name-other-listed', 'empty-tuple-selects-nothing', 'other-type-listed',
                     'subclass-listed-superclass-raised', 'indexerror-unlisted',
                     'keyerror-unlisted', 'control-types-unlisted')
 
